@@ -88,12 +88,20 @@ def fstring(it, n):
         if isinstance(part, ast.Constant):
             p = mk_str(part.value)
         elif isinstance(part, ast.FormattedValue):
-            if part.format_spec is not None:
-                raise OutOfSubset("f-string format spec")
             v = it.ev(part.value)
             if part.conversion == 114:  # !r
                 raise OutOfSubset("f-string !r")
-            p = to_str(it, v)
+            if part.format_spec is not None:
+                # f"{x:spec}" with a literal spec: the contract module names the spec function standing for it
+                # (OPTIONS = {"format_specs": {"o": "octal"}}): an uninterpreted function of the value
+                fsp = part.format_spec
+                lit = fsp.values[0].value if isinstance(fsp, ast.JoinedStr) and len(fsp.values) == 1 and isinstance(fsp.values[0], ast.Constant) else None
+                fname = (it.m.options.get("format_specs") or {}).get(lit)
+                if fname is None or fname not in it.m.fns:
+                    raise OutOfSubset("f-string format spec")
+                p = it.call_spec(it.m.fns[fname], [v], {})
+            else:
+                p = to_str(it, v)
         else:
             raise OutOfSubset("f-string part")
         acc = p if acc is None else s_concat(it, acc, p)
@@ -1421,6 +1429,14 @@ def value_method(it, base, attr, node):
                         return xs  # "".join(s) over the characters of a string is the string itself
                     raise OutOfSubset("sep.join(string)")
                 lst = as_list(it, xs)
+                nlit = z3.simplify(lst.terms[0])
+                if _const_key(base) == "" and z3.is_int_value(nlit) and 0 <= nlit.as_long() <= 12:
+                    # "".join([a, b, c]) over a list of known small length is the concatenation a + b + c
+                    acc = mk_str("")
+                    for k in range(nlit.as_long()):
+                        e = V(TStr, (z3.simplify(z3.Select(lst.terms[1], k)),))
+                        acc = e if k == 0 else s_concat(it, s_concat(it, acc, base), e)
+                    return acc
                 jf = it.eng.ufunc("str_join", zs, z3.IntSort(), z3.ArraySort(z3.IntSort(), zs), zs)
                 return V(TStr, (jf(base.t, lst.terms[0], lst.terms[1]),))
             return bb(f)
@@ -1430,10 +1446,14 @@ def value_method(it, base, attr, node):
                     return mk_bool(z3.PrefixOf(p.t, base.t) if attr == "startswith" else z3.SuffixOf(p.t, base.t))
                 return mk_bool(it.eng.ufunc("str_" + attr, zs, zs, z3.BoolSort())(base.t, p.t))
             return bb(f)
+        if attr in ("isdigit", "isalpha", "isalnum", "isspace"):
+            return bb(lambda: mk_bool(it.eng.ufunc("str_" + attr, zs, z3.BoolSort())(base.t)))
         if attr in ("strip", "lower", "upper", "rstrip", "lstrip"):
             def f(*a):
                 if a:
-                    raise OutOfSubset(f"str.{attr}(chars)")
+                    # s.strip(chars): an uninterpreted function of the string and the character set
+                    c = it.coerce(a[0], TStr)
+                    return V(TStr, (it.eng.ufunc("str_" + attr + "_chars", zs, zs, zs)(base.t, c.t),))
                 return V(TStr, (it.eng.ufunc("str_" + attr, zs, zs)(base.t),))
             return bb(f)
         if attr == "format":
